@@ -16,9 +16,11 @@ from vlib.core import Case, ROOT
 PROP = "AGG"
 SPEC_MODE = "spec"
 KEEP_PREFIX = 2                      # clock + agg.new
-SIZES = {"quick": 900, "thorough": 12000}
-BATCH = 300
+SIZES = {"quick": 3000, "thorough": 40000}
+BATCH = 1000
 SHRINK_BUDGET = 250
+EXTRA_MODULES = ("Sentinel.Lemmas.Aggregator", "Sentinel.Lemmas.AggregatorList", "Sentinel.Lemmas.AggregatorSys",
+                 "Sentinel.Lemmas.AggregatorTick", "Sentinel.Lemmas.AggregatorLog")
 RULE = ("per case: `clock T0` (T0 = 1.9e12 + whole seconds + {0,1,200,499,500,999}; one in ten a few seconds before midnight UTC), "
         "`agg.new <maxSize> <maxFiles> <n> <I>` (log limits from {1..100000} x {1..6} so that size rolls, day rolls and removals happen; "
         "array geometry 65% the library default 20x10000, else from {2x1000, 4x2000, 10x5000, 40x20000, 10x10000, 5x5000, 1x1000, 100x10000, "
